@@ -85,13 +85,25 @@ def gen_entry(rng, cls, mips, rela):
 
 
 # --------------------------------------------------------------------------------------------- observing the library
+def _poke(tab, n):
+    """random access BEFORE counting / iterating on the same table object: answers must not depend on call order"""
+    try:
+        tab.get_relocation(n)
+    except Exception:      # noqa: BLE001 — judged by the observed calls
+        pass
+
+
 def obs_table(tab, gets=()):
+    if gets:
+        _poke(tab, gets[0])
     return {'num': run_impl(tab.num_relocations), 'is_rela': tab.is_RELA(),
             'entries': run_impl(lambda: [canon(r.entry) for r in tab.iter_relocations()]),
             'get': [run_impl(lambda n=n: canon(tab.get_relocation(n).entry)) for n in gets]}
 
 
-def obs_relr(tab):
+def obs_relr(tab, poke=None):
+    if poke is not None:
+        _poke(tab, poke)
     offs = run_impl(lambda: [r['r_offset'] for r in tab.iter_relocations()])
     # num_relocations caches list(iter_relocations()); ask a fresh object state: the cache is only set on success
     return {'offsets': offs, 'num': run_impl(tab.num_relocations)}
@@ -245,7 +257,10 @@ def eval_relr(ctx, reqs):
         data = img.build()
 
         def impl_fn(data=data, i=i):
-            return obs_relr(open_elf(data).get_section(i))
+            # in one case out of two, a random-access get_relocation(k) precedes the count / iteration
+            hb = sum(data[-64:]) + len(data) // 8          # images are 8-byte padded: derive the choice from content
+            poke = (hb % 4) if hb % 2 else None
+            return obs_relr(open_elf(data).get_section(i), poke)
         impl = run_impl(impl_fn)
         runs.append({'p': 'C08', 'k': 'run_relr', 'hex': hx(data), 'le': le, 'cls': cls, 'machine': req['machine'],
                      'offset': img.offsets[i], 'size': len(table), 'entsize': entsize})
@@ -364,7 +379,7 @@ def eval_dyn(ctx, reqs):
             res = d.get_relocation_tables()
             o = []
             for nm, t in res.items():
-                o.append([nm, obs_relr(t) if nm == 'RELR' else obs_table(t)])
+                o.append([nm, obs_relr(t, 0 if (sum(data[-64:]) + len(data) // 8) % 2 else None) if nm == 'RELR' else obs_table(t)])
             return o
         impl = run_impl(impl_fn)
         runs.append({'p': 'C08', 'k': 'run_dyn', 'hex': hx(data), 'le': le, 'cls': cls, 'machine': req['machine'],
